@@ -10,6 +10,7 @@ import (
 	"sort"
 	"strconv"
 	"strings"
+	"sync/atomic"
 	"time"
 )
 
@@ -65,6 +66,37 @@ func LoadFindings(verifDir string) (*FindingsFile, error) {
 // HARNESS_PANIC pseudo-violation (reported with exit code 2, never as a VIOLATION) and a
 // watchdog abort that the world did not handle into HARNESS_WATCHDOG.
 func SafeExec(w World, sc *Scenario, env *Env) (v *Violation) {
+	if w.ID() == "C18" {
+		return safeExec(w, sc, env) // the scheduler has its own no-progress detector
+	}
+	// The run executes on a goroutine of its own so that a library call that never returns
+	// (a lock that is never released, a receive nobody answers) becomes a verdict instead of
+	// a hung worker: no yield point reached for 20 s of real time.
+	done := make(chan *Violation, 1)
+	go func() { done <- safeExec(w, sc, env) }()
+	ticker := time.NewTicker(2 * time.Second)
+	defer ticker.Stop()
+	last, idle := atomic.LoadUint64(&env.yields), 0
+	for {
+		select {
+		case v := <-done:
+			return v
+		case <-ticker.C:
+			cur := atomic.LoadUint64(&env.yields)
+			if cur != last {
+				last, idle = cur, 0
+				continue
+			}
+			idle++
+			if idle >= 10 {
+				return &Violation{Oracle: "call_never_returns", Step: -1, NoShrink: true,
+					Msg: fmt.Sprintf("the run reached no yield point for 20 s (after %d yield points): a call into the library blocks for ever (the goroutine is abandoned)", cur)}
+			}
+		}
+	}
+}
+
+func safeExec(w World, sc *Scenario, env *Env) (v *Violation) {
 	defer func() {
 		Deactivate()
 		if r := recover(); r != nil {
